@@ -246,3 +246,81 @@ pub fn random_sparse(rng: &mut Rng, max_units: u64) -> Option<Pos> {
         None
     }
 }
+
+/// A crowded position whose pieces alternate with single empty squares on every rank, so that the
+/// placement field of its FEN is as long as a placement can be (up to 71 characters; positions
+/// from play rarely exceed 60). Up to three pieces are taken out again. Castling rights are given
+/// when king and rook stand on their home squares.
+pub fn random_dense(rng: &mut Rng) -> Option<Pos> {
+    let mut sq = [0u8; 64];
+    let mut slots: Vec<usize> = Vec::new();
+    for r in 0..8usize {
+        let phase = rng.below(2) as usize;
+        for k in 0..4 {
+            slots.push(r * 8 + 2 * k + phase);
+        }
+    }
+    // kings: the white one on the lower half, the black one on the upper half; e1/e8 preferred
+    let wk = if slots.contains(&4) && rng.chance(1, 2) { 4 } else { *rng.pick(&slots[..12]) };
+    let bk = if slots.contains(&60) && rng.chance(1, 2) { 60 } else { *rng.pick(&slots[20..]) };
+    sq[wk] = oracle::K;
+    sq[bk] = oracle::K | oracle::BLACK;
+    let mut count = [1u32, 1u32];
+    for &s in &slots {
+        if sq[s] != 0 {
+            continue;
+        }
+        let r = s / 8;
+        // colour by half of the board, with some mixing in the middle
+        let col: u8 = if r < 3 { 0 } else if r > 4 { 1 } else { rng.below(2) as u8 };
+        if count[col as usize] >= 16 {
+            continue;
+        }
+        let kind = if (1..7).contains(&r) && rng.chance(3, 5) {
+            oracle::P
+        } else {
+            *rng.pick(&[oracle::N, oracle::N, oracle::B, oracle::B, oracle::R, oracle::Q])
+        };
+        if kind == oracle::P && (r == 0 || r == 7) {
+            continue;
+        }
+        sq[s] = kind | (col << 3);
+        count[col as usize] += 1;
+    }
+    for _ in 0..rng.below(4) {
+        let s = *rng.pick(&slots);
+        if oracle::kind(sq[s]) != oracle::K {
+            sq[s] = 0;
+        }
+    }
+    let mut castle = 0u8;
+    if sq[4] == oracle::K {
+        if sq[7] == oracle::R && rng.chance(2, 3) {
+            castle |= oracle::WK;
+        }
+        if sq[0] == oracle::R && rng.chance(2, 3) {
+            castle |= oracle::WQ;
+        }
+    }
+    if sq[60] == (oracle::K | oracle::BLACK) {
+        if sq[63] == (oracle::R | oracle::BLACK) && rng.chance(2, 3) {
+            castle |= oracle::BK;
+        }
+        if sq[56] == (oracle::R | oracle::BLACK) && rng.chance(2, 3) {
+            castle |= oracle::BQ;
+        }
+    }
+    let p = Pos {
+        sq,
+        stm: rng.below(2) as u8,
+        castle,
+        ep: -1,
+        half: rng.below(100) as u32,
+        full: 1 + rng.below(3000) as u32,
+    };
+    if p.is_sane() && !p.legal_moves().is_empty() {
+        Some(p)
+    } else {
+        None
+    }
+}
